@@ -241,10 +241,12 @@ def concrete_playback(dest, m, h, extra):
     tests = re.findall(r"```\n(.*?)```", out, flags=re.S)
     if not tests:
         return dict(note="Kani produced no concrete playback test")
-    test = tests[0]
-    tname = re.search(r"fn (kani_concrete_playback_\w+)", test).group(1)
-    values = re.findall(r"// (.*)\n\s*vec!\[([^\]]*)\]", test)
-    # append the generated test to the woven module of the harness and run it natively
+    tests = tests[:6]
+    test = "\n".join(tests)
+    tnames = re.findall(r"fn (kani_concrete_playback_\w+)", test)
+    tname = "kani_concrete_playback_"
+    values = re.findall(r"// (.*)\n\s*vec!\[([^\]]*)\]", tests[0])
+    # append the generated tests to the woven module of the harness and run them natively
     rel, harness = next(((r, hf) for r, hf in m.INJECT if re.search(r"fn\s+%s\b" % re.escape(short), open(os.path.join(os.path.dirname(CACHE), hf)).read())), m.INJECT[0])
     stem = os.path.splitext(os.path.basename(harness))[0]
     path = os.path.join(dest, rel)
@@ -256,7 +258,7 @@ def concrete_playback(dest, m, h, extra):
     open(path, "w").write(src)
     q = subprocess.run(["cargo", "kani", "playback", "-Z", "concrete-playback", "--", tname], cwd=dest, env=ENV, capture_output=True, text=True, timeout=1800)
     qo = q.stdout + q.stderr
-    failed_native = "test result: FAILED" in qo and tname in qo
+    failed_native = "test result: FAILED" in qo and any(t in qo for t in tnames)
     m2 = re.search(r"panicked at ([^\n]*)\n([^\n]*)", qo)
     return dict(kind="kani-concrete-playback", inputs=["%s = bytes[%s]" % (a.strip(), b.strip()) for a, b in values], test=test,
                 native_replay_failed_as_predicted=failed_native, native_panic=(m2.group(0)[:300] if m2 else ""),
